@@ -162,3 +162,25 @@ _ADD = {
 }
 for _k, _v in _ADD.items():
     CHECKS[_k]["text"] = CHECKS[_k]["text"] + _v
+
+# further additions of session 3 (round 7 of the seeded changes)
+_ADD2 = {
+    "C01": " One monomial may be entered a second time with its labels in another order.",
+    "C02": " Warning filters installed by the library persist within a case; optional prelude of rejected model descriptions; is_solution_valid also on a solution over the model's own variables; big-M record-only shape.",
+    "C03": " Same additions as C02.",
+    "C05": " Value functions also on assignments of exactly the variables present in the terms; quadratic types must raise KeyError for keys of three distinct variables (constructor, item assignment, +=); exact big-integer evaluation.",
+    "C08": " Optional set_mapping before the constraints, explicit bounds modes, whole-pipeline magnitude scaling, a record-only big-M constraint judged through solve_bruteforce, template term order reversal.",
+    "C09": " Sub-check stale (models derived from one that still reports a cancelled variable; loose demand), user-subclass mode, the valid callback checks that the model reads as passed in, mutually unorderable labels for plain-dict inputs, mixed exact magnitudes.",
+    "C10": " SetCover weight 0, large-number NumberPartitioning with exact arg-min selection, GraphPartitioning degree attribute on simple graphs.",
+    "C11": " Labelled models with a past (clear + rebuild), cancelled variables holding the lowest mapping integers, models derived by copy / constructor / arithmetic identity, one magnitude class per model.",
+    "C12": " Seeds beyond the C int range (refused or reproducible across a clock second), re-heating pattern in the distribution test, magnitude classes.",
+    "C13": " Three-step chains (state-setting operation, in-place merge, best-recomputing removal), near-equal values, growth cap.",
+    "C14": " Derived models by out-of-place arithmetic and the copy constructor; magnitude cap.",
+    "C15": " Quadratic extrema on raw dicts whose keys squash to two labels; a third of the anneal_temperature_range calls under warnings-as-errors and numpy traps.",
+    "C16": " Whole-model magnitude scaling (2^-45, 2^30).",
+    "C17": " Identical seeded calls inside one sequence must agree; enumerated sub-check repeat with 10^5 spins; the generator additions of C11.",
+    "C18": " A third of the sources from the order-upsetting label pools; directed merge term.",
+    "C19": " Stale variables / stale degree in every catalogue slot; explicit zero constants in solver dict arguments; cost guard.",
+}
+for _k, _v in _ADD2.items():
+    CHECKS[_k]["text"] = CHECKS[_k]["text"] + _v
